@@ -6,12 +6,15 @@ replace github.com/arr-ai/arrai => /repo
 
 replace github.com/spf13/afero => github.com/anz-bank/afero v1.2.4
 
-require github.com/arr-ai/arrai v0.0.0
+require (
+	github.com/arr-ai/arrai v0.0.0
+	github.com/arr-ai/wbnf v0.38.0
+	github.com/sirupsen/logrus v1.9.4
+)
 
 require (
 	github.com/arr-ai/frozen v1.11.0 // indirect
 	github.com/arr-ai/hash v1.1.0 // indirect
-	github.com/arr-ai/wbnf v0.38.0 // indirect
 	github.com/cpuguy83/go-md2man/v2 v2.0.4 // indirect
 	github.com/davecgh/go-spew v1.1.1 // indirect
 	github.com/go-errors/errors v1.5.1 // indirect
@@ -23,7 +26,6 @@ require (
 	github.com/richardlehane/mscfb v1.0.4 // indirect
 	github.com/richardlehane/msoleps v1.0.3 // indirect
 	github.com/russross/blackfriday/v2 v2.1.0 // indirect
-	github.com/sirupsen/logrus v1.9.4 // indirect
 	github.com/spf13/afero v1.11.0 // indirect
 	github.com/stretchr/testify v1.10.0 // indirect
 	github.com/urfave/cli/v2 v2.2.0 // indirect
